@@ -188,6 +188,10 @@ func h1Chunks(r *core.Rand, n int) []int {
 var h1Trailers = [][2]string{{"X-Checksum", "abc"}, {"X-T", "v"}, {"Expires", "0"}, {"A-Tr", ""}, {"X-T", "second"}}
 
 // GenH1Spec draws a well-formed message (Valid) in one of the framings in scope.
+// H1Body / H1Chunks: exported for the end-to-end generators.
+func H1Body(r *core.Rand, max int) []byte  { return h1Body(r, max) }
+func H1Chunks(r *core.Rand, n int) []int { return h1Chunks(r, n) }
+
 func GenH1Spec(r *core.Rand, req bool, maxBody int) *H1Spec {
 	s := &H1Spec{Req: req, Proto: "HTTP/1.1", Valid: true}
 	if r.Chance(1, 10) {
